@@ -255,6 +255,16 @@ func (_this *Encoder) OnBigDecimalFloat(value *apd.Decimal) {
 		return
 	}
 
+	if value.IsZero() {
+		// Same canonical zero as every other numeric type
+		sign := 1
+		if value.Negative {
+			sign = -1
+		}
+		_this.writer.WriteZero(sign)
+		return
+	}
+
 	_this.writer.WriteBigDecimalFloat(value)
 }
 
